@@ -25,6 +25,7 @@ func main() {
 	verbose := flag.Bool("v", false, "print every obligation")
 	allFuncs := flag.Bool("all", false, "also verify inlinable unexported functions as roots")
 	noReplay := flag.Bool("noreplay", false, "do not replay counterexamples on the real code")
+	flag.BoolVar(&keepQueries, "keep", false, "with -dump: keep the SMT files of discharged obligations as well")
 	cost := flag.Bool("cost", false, "also produce the cost/single-visit obligations when -funcs is given")
 	frame := flag.Bool("frame", false, "run the frame analysis (C14) instead of the contract verification")
 	flag.Parse()
